@@ -121,6 +121,18 @@ add(G(("main", SEQ(CAP(R("d+")), G(("d", S(b"x")), ("main", CAP(R("d+"))))))), [
 add(G(("a", S(b"1")), ("main", SEQ(CAP(R("a*")), CAP(R("w")), ('opt', CAP(R("A")))))), [b"11a", b"ab", b"1"])
 add(SEQ(CAP(R("S+")), R("s"), CAP(R("D*"))), [b"ab 1", b"a\nbc", b" "])
 
+# depth budget: one unit per nesting level, released on every path (seeded C19-4: if-not releasing it twice)
+n0 = len(cases)
+DEEP = [G(("main", ALT(SEQ(S(b"a"), ('ifnot', S(b"b"), R("main"))), ('int', 0)))),
+        G(("main", ALT(SEQ(S(b"a"), ('not', S(b"b")), R("main")), ('int', 0)))),
+        G(("main", ALT(SEQ(S(b"a"), ALT(SEQ(S(b"b"), FAIL), R("main"))), ('int', 0)))),
+        G(("main", ('opt', SEQ(S(b"a"), ('if', ('int', 0), R("main")))))),
+        G(("main", ALT(SEQ(S(b"a"), ('drop', ('opt', FAIL)), ('look', 0, ('int', 0)), R("main")), ('int', 0))))]
+for g in DEEP:
+    add(g, [b"a" * 1000, b"a" * 1021, b"a" * 1022, b"a" * 1023, b"a" * 1024, b"a" * 1100])
+for c in cases[n0:]:
+    c.noscan = True
+
 out = os.path.join(os.path.dirname(os.path.dirname(HERE)), "corpus", "C12", "targeted.json")
 with open(out, "w") as f:
     json.dump([case_to_json(c) for c in cases], f, indent=0)
